@@ -655,6 +655,15 @@ def ev_findall_resolves(c):
             e = et_resolve(root, p)
             if e is None or not same_value(v, conv(e)):
                 return {"find_first": ff, "path": p, "value": repr(v)[:200], "elementtree": None if e is None else repr(conv(e))[:200]}
+            # the path as findall hands it out (a list) resolves too, as often as it is used, and stays what it was
+            if p:
+                p0 = list(p)
+                for turn in (1, 2):
+                    gl = core.call(doc.get, p, _DEF)
+                    if gl[0] != "ok" or gl[1] is _DEF or not (gl[1] is v or (gl[1] == v and not isinstance(v, list))):
+                        return {"find_first": ff, "path": p0, "list_form_get": repr(gl)[:200], "turn": turn, "value": repr(v)[:200]}
+                    if p != p0:
+                        return {"find_first": ff, "path": p0, "path_after_get": list(p), "turn": turn}
     return None
 
 
